@@ -338,7 +338,7 @@ Definition Good1 (rest : list (list nat)) (s : ms) : Prop :=
     InvW c cyc0 wk0 gw rd a s /\ InvX c B cyc0 wk0 gw rd s /\ SnapOK B cyc0 wk0 rest s.
 
 (* (A) the start state of any iterator of the family whose snapshot entry is the state it was built from *)
-Lemma start_good B cyc0 wk0 workers ny0 siy0 samp0 last0 wsnap snap :
+Lemma iter_start_good B cyc0 wk0 workers ny0 siy0 samp0 last0 wsnap snap :
   cyc0 < W -> (forall w, w < W -> a0 cyc0 w <= nb B w) -> workers_ok c B cyc0 workers -> entries_ok c wk0 workers wsnap snap ->
   sn_step snap = ny0 -> S (sn_last snap) mod W = cyc0 ->
   Good1 (refsuf W B 0 cyc0) (iter_n (try_put_index c) (c_P c * W) (init0 c cyc0 workers ny0 siy0 samp0 last0 wsnap snap)).
@@ -357,7 +357,7 @@ Proof.
 Qed.
 
 (* (B) one more batch *)
-Lemma step_good b rest s sched : Good1 (b :: rest) s ->
+Lemma iter_step_good b rest s sched : Good1 (b :: rest) s ->
   exists s' sched', sdl_next c s sched = (OBatch b, s', sched') /\ Good1 rest s'.
 Proof.
   intros (B & cyc0 & wk0 & gw & rd & a & R & Hc0 & Ha0 & Hf0 & H & HR & HA & HS & HWw & HX & _).
@@ -393,18 +393,18 @@ Proof.
 Qed.
 
 (* (C) k more batches *)
-Lemma replay_good : forall k rest s sched, k <= length rest -> Good1 rest s ->
+Lemma iter_replay_good : forall k rest s sched, k <= length rest -> Good1 rest s ->
   exists s' sched', replay c k s sched = (s', sched') /\ Good1 (skipn k rest) s'.
 Proof.
   induction k as [|k IH]; intros rest s sched Hk HG; [exists s, sched; auto|].
   destruct rest as [|b rest]; [cbn in Hk; lia|].
-  destruct (step_good b rest s sched HG) as (s1 & sched1 & E & HG1).
+  destruct (iter_step_good b rest s sched HG) as (s1 & sched1 & E & HG1).
   destruct (IH rest s1 sched1 ltac:(cbn in Hk; lia) HG1) as (s' & sched' & E' & HG').
   exists s', sched'. cbn [replay skipn]. rewrite E. auto.
 Qed.
 
 (* (D) checkpoint and resume: again a good state, with the same remaining stream *)
-Lemma resume_good rest s sched : Good1 rest s ->
+Lemma iter_resume_good rest s sched : Good1 rest s ->
   exists sr sched', sdl_resume c (state_dict s) sched = (sr, sched') /\ Good1 rest sr.
 Proof.
   intros (B & cyc0 & wk0 & gw & rd & a & R & Hc0 & Ha0 & Hf0 & H & HR & HA & HS & HWw & HX & Pst & Plen & R1 & c1 & Hc1 & Ela & Hb1 & Eref & Hent).
@@ -437,27 +437,27 @@ Proof.
 Qed.
 
 (* (E) what a good state still yields *)
-Lemma good_outcomes rest s sched : Good1 rest s -> outcomes c (S (length rest)) s sched = map OBatch rest ++ [OStop].
+Lemma iter_good_outcomes rest s sched : Good1 rest s -> outcomes c (S (length rest)) s sched = map OBatch rest ++ [OStop].
 Proof.
   intros (B & cyc0 & wk0 & gw & rd & a & R & Hc0 & Ha0 & Hf0 & H & HR & HA & HS & HWw & HX & _).
   exact (outcomes_iter c Hkind HW HP B cyc0 Hc0 wk0 rest gw rd a R s sched H HR HA HS HWw HX).
 Qed.
 
-Lemma fresh_good : Good1 (reference c) (sdl_fresh c).
+Lemma iter_fresh_good : Good1 (reference c) (sdl_fresh c).
 Proof.
-  pose proof (start_good (Bw c) 0 wk_fresh0 (repeat wk_fresh W) 0 0 0 (W - 1) (repeat (0, false) W) (snap_fresh c) HW
+  pose proof (iter_start_good (Bw c) 0 wk_fresh0 (repeat wk_fresh W) 0 0 0 (W - 1) (repeat (0, false) W) (snap_fresh c) HW
                 ltac:(intros w _; cbn; lia) (fresh_workers_ok c Hkind) (fresh_entries_ok c (snap_fresh c) eq_refl) eq_refl) as G.
   rewrite (refsuf_start c Hkind HW) in G. apply G.
   cbn. replace (S (W - 1)) with W by lia. apply Nat.mod_same. lia.
 Qed.
 
 (* (F) chains: k1 batches, checkpoint + resume, k2 batches, checkpoint + resume, ... *)
-Lemma chain_good : forall ks rest s sched, fold_right Nat.add 0 ks <= length rest -> Good1 rest s ->
+Lemma iter_chain_good : forall ks rest s sched, fold_right Nat.add 0 ks <= length rest -> Good1 rest s ->
   exists s' sched', chain c ks s sched = (s', sched') /\ Good1 (skipn (fold_right Nat.add 0 ks) rest) s'.
 Proof.
   induction ks as [|j ks IH]; intros rest s sched Hk HG; [exists s, sched; auto|].
-  cbn [fold_right] in Hk. destruct (replay_good j rest s sched ltac:(lia) HG) as (s1 & sc1 & E1 & G1).
-  destruct (resume_good (skipn j rest) s1 sc1 G1) as (s2 & sc2 & E2 & G2).
+  cbn [fold_right] in Hk. destruct (iter_replay_good j rest s sched ltac:(lia) HG) as (s1 & sc1 & E1 & G1).
+  destruct (iter_resume_good (skipn j rest) s1 sc1 G1) as (s2 & sc2 & E2 & G2).
   destruct (IH (skipn j rest) s2 sc2 ltac:(rewrite skipn_length; lia) G2) as (s' & sched' & E' & G').
   exists s', sched'. cbn [chain fold_right]. rewrite E1, E2. split; [exact E'|]. rewrite skipn_skipn in G'. exact G'.
 Qed.
@@ -469,8 +469,8 @@ Theorem iter_resume_chain_I1 : forall ks sched, fold_right Nat.add 0 ks <= lengt
   let p := fold_right Nat.add 0 ks in
   outcomes c (S (length (reference c) - p)) s sched' = map OBatch (skipn p (reference c)) ++ [OStop].
 Proof.
-  intros ks sched Hk. destruct (chain_good ks (reference c) (sdl_fresh c) sched Hk fresh_good) as (s' & sched' & E & G).
-  rewrite E. cbn zeta. pose proof (good_outcomes _ s' sched' G) as Ho. rewrite skipn_length in Ho. exact Ho.
+  intros ks sched Hk. destruct (iter_chain_good ks (reference c) (sdl_fresh c) sched Hk iter_fresh_good) as (s' & sched' & E & G).
+  rewrite E. cbn zeta. pose proof (iter_good_outcomes _ s' sched' G) as Ho. rewrite skipn_length in Ho. exact Ho.
 Qed.
 
 (* a single checkpoint at any batch k *)
@@ -480,9 +480,9 @@ Theorem iter_resume_exact_I1 : forall k sched1 sched2, k <= length (reference c)
   outcomes c (S (length (reference c) - k)) sr sched' = map OBatch (skipn k (reference c)) ++ [OStop].
 Proof.
   intros k sched1 sched2 Hk.
-  destruct (replay_good k (reference c) (sdl_fresh c) sched1 Hk fresh_good) as (sk & sc1 & E1 & G1). rewrite E1.
-  destruct (resume_good _ sk sched2 G1) as (sr & sched' & E2 & G2). rewrite E2.
-  pose proof (good_outcomes _ sr sched' G2) as Ho. rewrite skipn_length in Ho. exact Ho.
+  destruct (iter_replay_good k (reference c) (sdl_fresh c) sched1 Hk iter_fresh_good) as (sk & sc1 & E1 & G1). rewrite E1.
+  destruct (iter_resume_good _ sk sched2 G1) as (sr & sched' & E2 & G2). rewrite E2.
+  pose proof (iter_good_outcomes _ sr sched' G2) as Ho. rewrite skipn_length in Ho. exact Ho.
 Qed.
 
 End EveryStep.
